@@ -46,7 +46,7 @@ fn main() {
     // seeded hostile names beyond the enumerated alphabet: longer, mixed separators, UNC / drive prefixes, non-ASCII
     let n: usize = std::env::args().nth(2).map(|x| x.parse().unwrap()).unwrap_or(300);
     let mut rng = StdRng::seed_from_u64(vharness::seed() ^ 0xC17);
-    let parts = ["..", ".", "", "a", "lib.so", "x.pdb", "X.PDB", "y.dll", "C:", "c:", "\\\\srv\\share", "/", "\\", "é", "名", " ", "a.b.c", "%2e%2e", ":", "nul"];
+    let parts = ["..", ".", "", "a", "lib.so", "x.pdb", "X.PDB", "y.dll", "C:", "c:", "\\\\srv\\share", "/", "\\", "é", "名", " ", "a.b.c", "%2e%2e", ":", "nul", " (deleted)", ".. (deleted)", "(deleted)"];
     for _ in 0..n {
         let k = rng.gen_range(1..7);
         let mut s = String::new();
